@@ -39,7 +39,9 @@ def environment():
 
 
 # (Count is a user-defined data type over integer: a value keeps the declared type, not its base type)
-PARAMS = [{'n': 'x', 'ty': 'integer'}, {'n': 'flag', 'ty': 'boolean'}, {'n': 's', 'ty': 'string'}, {'n': 'cnt', 'ty': 'Count'}]
+# (vec is an array of integers)
+PARAMS = [{'n': 'x', 'ty': 'integer'}, {'n': 'flag', 'ty': 'boolean'}, {'n': 's', 'ty': 'string'}, {'n': 'cnt', 'ty': 'Count'},
+          {'n': 'vec', 'ty': 'integer', 'dims': '[4]'}]
 
 
 def model_with(schema, home, text, seed):
@@ -53,11 +55,13 @@ def model_with(schema, home, text, seed):
     # state machines: the events the event statements of the corpus name (oalgen.Gen.INST_EVENTS / CLASS_EVENTS), and for
     # the home `state` a state of A's instance state machine whose incoming event carries the data items x, flag, s, cnt
     # (what a parameter is to a function, a data item of the received event is to a state action)
-    E = lambda numb, mning, *data: {'numb': numb, 'mning': mning, 'data': [{'n': n, 'ty': ty} for n, ty in data]}
+    E = lambda numb, mning, *data: {'numb': numb, 'mning': mning, 'data': [{'n': x[0], 'ty': x[1], 'dims': (x[2:] or [''])[0]} for x in data]}
     ca, cb = [c for c in d['classes'] if c['kl'] == 'A'][0], [c for c in d['classes'] if c['kl'] == 'B'][0]
+    # an array-valued attribute
+    ca['attrs'].append({'n': 'Items', 'k': 'base', 'ty': 'integer', 'dims': '[4]'})
     ca['sms'] = [{'kind': 'inst',
                   'events': [E(1, 'go', ('x', 'integer'), ('flag', 'boolean'), ('s', 'string')), E(2, 'stop now'),
-                             E(3, 'set', ('n', 'integer')), E(4, 'work', *[(p['n'], p['ty']) for p in PARAMS])],
+                             E(3, 'set', ('n', 'integer')), E(4, 'work', *[(p['n'], p['ty'], p.get('dims', '')) for p in PARAMS])],
                   'states': [{'n': 'Idle', 'numb': 1, 'body': ''},
                              {'n': 'Working', 'numb': 2, 'via': 4, 'body': text if home == 'state' else ''}]},
                  {'kind': 'class', 'events': [E(1, 'tick', ('n', 'integer')), E(2, 'reset')],
